@@ -1118,6 +1118,11 @@ func (db *DB) handleMemTableFlush(mt *memTable, dropPrefixes [][]byte) error {
 		tbl, err = table.OpenInMemoryTable(data, fileID, &bopts)
 	} else {
 		tbl, err = table.CreateTable(table.NewFilename(fileID, db.opt.Dir), builder)
+		if err == nil {
+			// The MANIFEST entry written (and fsynced) by addLevel0Table below must not become
+			// durable before the directory entry of the table file it refers to.
+			err = db.syncDir(db.opt.Dir)
+		}
 	}
 	if err != nil {
 		return y.Wrap(err, "error while creating table")
